@@ -93,6 +93,49 @@ example : Hdr echo := ⟨by decide, by decide, by decide, by decide⟩
 example : ([[1, 0, 0], [8, 0, 0, 0, 7, 1, 2], [0, 12, 0, 0, 0, 9, 0xde, 0xad, 0xbe, 0xef]].foldl
             (ctlFeed sliceU 8) init).delivered = [hello, echo] := by decide
 
+/-- **ctl_segmentation_independent**: the property's title, literally, and at EVERY moment of the stream (not only at its
+end): two segmentations of the same bytes — any prefix of a well-formed stream — leave the controller-side read loop in
+the same observable state: the same messages delivered in the same order, the same residual buffer, the same liveness.
+(`ctl_prefix` gives each run a decomposition "complete messages ++ strict prefix of the next"; `decomp_unique` shows
+that decomposition is determined by the bytes alone.) -/
+theorem ctl_segmentation_independent (U : Unpack Msg) (ms : List (Bytes × Msg)) (c1 c2 : List Bytes) (rest : Bytes)
+    (hwf : ∀ p ∈ ms, WF U p.1 p.2) (hseg : c1.flatten ++ rest = (ms.map (·.1)).flatten)
+    (hsame : c2.flatten = c1.flatten) :
+    (c1.foldl (ctlFeed U 8) init).delivered = (c2.foldl (ctlFeed U 8) init).delivered ∧
+    (c1.foldl (ctlFeed U 8) init).buf = (c2.foldl (ctlFeed U 8) init).buf ∧
+    (c1.foldl (ctlFeed U 8) init).st = (c2.foldl (ctlFeed U 8) init).st := by
+  obtain ⟨d1, r1, t1, e1, hd1, hb1, hst1, hf1, hc1⟩ := ctl_prefix U ms c1 rest hwf hseg
+  obtain ⟨d2, r2, t2, e2, hd2, hb2, hst2, hf2, hc2⟩ := ctl_prefix U ms c2 rest hwf (by rw [hsame]; exact hseg)
+  have hne : ∀ p ∈ d1 ++ r1, p.1 ≠ [] := by
+    intro p hp h
+    have := (hwf p (by rw [e1]; exact hp)).len8
+    rw [h] at this; simp at this
+  obtain ⟨hd, ht⟩ := decomp_unique d1 d2 r1 r2 t1 t2 hne (by rw [← e1, ← e2])
+    (by rw [← hf1, ← hf2, hsame]) hc1 hc2
+  exact ⟨by rw [hd1, hd2, hd], by rw [hb1, hb2, ht], by rw [hst1, hst2]⟩
+
+/-- **sw_segmentation_independent**: the same on the switch side (`IOWorker._push_receive_data` + `OFConnection.read`). -/
+theorem sw_segmentation_independent (U : Unpack Msg) (ms : List (Bytes × Msg)) (c1 c2 : List Bytes) (rest : Bytes)
+    (hwf : ∀ p ∈ ms, SWF U p.1 p.2) (hseg : c1.flatten ++ rest = (ms.map (·.1)).flatten)
+    (hsame : c2.flatten = c1.flatten) :
+    (c1.foldl (swFeed U) init).delivered = (c2.foldl (swFeed U) init).delivered ∧
+    (c1.foldl (swFeed U) init).buf = (c2.foldl (swFeed U) init).buf ∧
+    (c1.foldl (swFeed U) init).st = (c2.foldl (swFeed U) init).st := by
+  obtain ⟨d1, r1, t1, e1, hd1, hb1, hst1, hf1, hc1⟩ := sw_prefix U ms c1 rest hwf hseg
+  obtain ⟨d2, r2, t2, e2, hd2, hb2, hst2, hf2, hc2⟩ := sw_prefix U ms c2 rest hwf (by rw [hsame]; exact hseg)
+  have hne : ∀ p ∈ d1 ++ r1, p.1 ≠ [] := by
+    intro p hp h
+    have := (hwf p (by rw [e1]; exact hp)).len8
+    rw [h] at this; simp at this
+  obtain ⟨hd, ht⟩ := decomp_unique d1 d2 r1 r2 t1 t2 hne (by rw [← e1, ← e2])
+    (by rw [← hf1, ← hf2, hsame]) hc1 hc2
+  exact ⟨by rw [hd1, hd2, hd], by rw [hb1, hb2, ht], by rw [hst1, hst2]⟩
+
+/-- non-vacuity: a cut inside the second header vs. one read of the same 11 bytes -/
+example : ([[1, 0, 0], [8, 0, 0, 0, 7, 1, 2, 0]].foldl (ctlFeed sliceU 8) init).delivered = [hello] ∧
+    ([[1, 0, 0], [8, 0, 0, 0, 7, 1, 2, 0]].foldl (ctlFeed sliceU 8) init).buf = [1, 2, 0] ∧
+    ([[1, 0, 0, 8, 0, 0, 0, 7, 1, 2, 0]].foldl (ctlFeed sliceU 8) init).buf = [1, 2, 0] := by decide
+
 /-! ## Handlers that raise, and the end of the stream
 
 `ctlFeedH U H 8` / `swFeedH U H` are the two read paths with the outcome `H m` of the handler of every delivered
